@@ -338,8 +338,19 @@ def make_frame(case):
     for k, f in enumerate(case['foreign']):
         cols[f] = [r[6][k] for r in rows]
     names = list(cols)
-    names = [names[int(k)] for k in np.random.default_rng(case['col_seed']).permutation(len(names))]
-    return pd.DataFrame({n: cols[n] for n in names})
+    crng = np.random.default_rng(case['col_seed'])
+    names = [names[int(k)] for k in crng.permutation(len(names))]
+    df = pd.DataFrame({n: cols[n] for n in names})
+    # the index labels of a user frame are arbitrary (a frame that was sorted, filtered out of a larger
+    # one or concatenated keeps its old labels): the row order is what the dataset means
+    mode = int(crng.integers(4))
+    if mode == 1:
+        df.index = crng.permutation(len(df))
+    elif mode == 2:
+        df.index = np.arange(len(df)) * 3 + 7
+    elif mode == 3:
+        df.index = [0] * len(df)            # duplicate labels, as after pd.concat without ignore_index
+    return df
 
 
 def wire_rows(case):
